@@ -54,7 +54,8 @@ CHECKS = {
               "single-bit flip) is run against the real verifier; the trace spec demands the model's verdict for "
               "each and the completeness of the plan. The standard library's own entry points (verify, batch_verify on batches "
               "of one and two, at each position) get a byte-level plan (appended bytes, truncations, bit flips spread over the "
-              "proof, a changed public input) with the same rule."),
+              "proof, a changed public input) with the same rule. Proofs whose last byte is zero are built on purpose (re-proving with fresh "
+              "blinding) and the last 1..3 bytes of every proof are dropped."),
         design_ref="DESIGN.md 4/C03",
         note=("Single edits only (the property's quantifier); soundness up to negligible probability; "
               "proof_same/stmt_same/key_same facts are harness byte comparisons; panics count as violations."),
@@ -183,7 +184,9 @@ CHECKS = {
               "AccEncode / MsmEncode (bases as foreign points, scalars, then the scalars of the NAMED fixed bases in byte-wise "
               "lexicographic order of the names); accumulators are witnessed from name lists in canonical (index), reversed and "
               "shuffled order with 3..25 fixed and permutation commitments, exposed by VerifierGadget::constrain_as_public_input "
-              "and compared with AssignedAccumulator::as_public_input and the specification."),
+              "and compared with AssignedAccumulator::as_public_input and the specification. Committed instances: relations with np plain and nc "
+              "committed public inputs - the key must record np, and the real verifier must accept exactly the plain vector with the "
+              "commitment to the committed values (shorter, longer, padded vectors, another or no commitment rejected)."),
         design_ref="DESIGN.md 4/C08",
         note=("Not covered: verifying-key identities of the verifier gadget, the committed-scalar accumulator path, IR value types (zkir publish), "
               "committed instance column. Edits are sampled positions on long vectors; satisfiability judged by MockProver."),
